@@ -55,6 +55,51 @@ Definition solve_constb (A : seq R) (Ainv0 : R) (b : M) : seq M :=
   solveK A Ainv0 (b :: nseq (size A).-1 zeroM).
 End RawSolve.
 
+Section RawFact.
+(* factorization kernels over abstract matrix operations (instantiated with list matrices and with 'M[K]_n) *)
+Variable T : Type.
+Variables (mul add sub : T -> T -> T) (neg tr : T -> T) (zero : T).
+Variables (triu tril1 : T -> T).          (* upper part incl. diagonal; strictly lower part *)
+Variables (lowhalf : T -> T).             (* Proj o A : strictly lower part + half the diagonal (algorithms.py:1524) *)
+Variables (half : T -> T).                (* 0.5 * A *)
+Variables (fixdiag : T -> T -> T -> T).   (* cholesky's explicit diagonal: L_D[n,n] = -0.5 * L0[n,n] * dF[n,n] *)
+Let sum_lo (f : nat -> T) (lo n : nat) : T := foldl (fun acc c => add acc (f c)) zero (iota lo n).
+
+(* _cholesky (algorithms.py:1511): base factor L0 and its inverse are given *)
+Definition chol_step (A : seq T) (L0 L0inv : T) (Ls : seq T) : T :=
+  let D := size Ls in
+  let dF0 := sum_lo (fun d => mul (nth zero Ls (D - d)) (tr (nth zero Ls d))) 1 D.-1 in
+  let dF1 := sub dF0 (nth zero A D) in
+  let dF := mul (mul L0inv dF1) (tr L0inv) in
+  fixdiag L0 dF (neg (mul L0 (lowhalf dF))).
+Definition cholK (A : seq T) (L0 L0inv : T) : seq T := seriesT (chol_step A L0 L0inv) L0 (size A).
+
+(* UTPM.lu / lu2 (utpm.py:2150): L0, U0, their inverses and the transposed base permutation matrix are given *)
+Definition luK_step (wT : T) (A : seq T) (L0 U0 L0inv U0inv : T) (LUs : seq (T * T)) : T * T :=
+  let d := size LUs in
+  let dF0 := foldl (fun acc i => sub acc (mul (nth (zero, zero) LUs (d - i)).1 (nth (zero, zero) LUs i).2)) zero (iota 1 d.-1) in
+  let dF1 := add dF0 (mul wT (nth zero A d)) in
+  let dF := mul L0inv (mul dF1 U0inv) in
+  (mul L0 (tril1 dF), mul (triu dF) U0).
+Definition luK (wT : T) (A : seq T) (L0 U0 L0inv U0inv : T) : seq (T * T) :=
+  seriesT (luK_step wT A L0 U0 L0inv U0inv) (L0, U0) (size A).
+
+(* _qr_rectangular for a square, full-rank base matrix (algorithms.py:1716): Q0, R0 and inv(R0) are given *)
+Definition qr_step (A : seq T) (Q0 R0 Rinv : T) (QRs : seq (T * T)) : T * T :=
+  let D := size QRs in
+  let Qn d := (nth (zero, zero) QRs d).1 in let Rn d := (nth (zero, zero) QRs d).2 in
+  let dF := sum_lo (fun d => mul (Qn d) (Rn (D - d))) 1 D.-1 in
+  let dG := foldl (fun acc d => sub acc (mul (tr (Qn d)) (Qn (D - d)))) zero (iota 1 D.-1) in
+  let H := sub (nth zero A D) dF in
+  let S := half dG in
+  let X0 := tril1 (sub (mul (mul (tr Q0) H) Rinv) S) in
+  let X := sub X0 (tr X0) in
+  let Kk := add S X in
+  let RD := sub (mul (tr Q0) H) (mul Kk R0) in
+  (mul Q0 Kk, RD).
+Definition qrK (A : seq T) (Q0 R0 Rinv : T) : seq (T * T) := seriesT (qr_step A Q0 R0 Rinv) (Q0, R0) (size A).
+End RawFact.
+
 (* ---------- executable instance: list matrices over a field ---------- *)
 Section ListMx.
 Variable K : fieldType.
@@ -94,16 +139,18 @@ Definition solveU_constb (n k : nat) (A : seq mx) (Ainv0 : mx) (b : mx) : seq mx
   solve_constb (mmul n n k) (msub n k) (mzero n k) (mzero n n) A Ainv0 b.
 Definition traceU (n : nat) (x : seq mx) : seq K := [seq mtrace n A | A <- x].
 
-(* ---------- LU in Taylor arithmetic: UTPM.lu / lu2 (utpm.py:2150-2236) ----------
-   base data given: w (permutation matrix of the base pivots), L0, U0 and the inverses of L0 and U0 *)
-Definition lu_step (n : nat) (wT : mx) (A : seq mx) (L0 U0 L0inv U0inv : mx) (LUs : seq (mx * mx)) : mx * mx :=
-  let d := size LUs in
-  let dF0 := foldl (fun acc i => msub n n acc (mmul n n n (nth ([::], [::]) LUs (d - i)).1 (nth ([::], [::]) LUs i).2)) (mzero n n) (iota 1 d.-1) in
-  let dF1 := madd n n dF0 (mmul n n n wT (nth [::] A d)) in
-  let dF := mmul n n n L0inv (mmul n n n dF1 U0inv) in
-  (mmul n n n L0 (mtril1 n n dF), mmul n n n (mtriu n n 0 dF) U0).
+(* ---------- factorizations on list matrices (instances of the raw kernels) ---------- *)
+Definition mlowhalf (n : nat) (A : mx) : mx :=
+  mkmx n n (fun i j => if (j < i)%N then mxget A i j else if i == j then 2%:R^-1 * mxget A i j else 0).
+Definition mhalf (n : nat) (A : mx) : mx := mscale n n (2%:R^-1) A.
+Definition mfixdiag (n : nat) (L0 dF LD : mx) : mx :=
+  mkmx n n (fun i j => if i == j then - (2%:R^-1) * mxget L0 i i * mxget dF i i else mxget LD i j).
 Definition luU (n : nat) (wT : mx) (A : seq mx) (L0 U0 L0inv U0inv : mx) : seq (mx * mx) :=
-  seriesT (lu_step n wT A L0 U0 L0inv U0inv) (L0, U0) (size A).
+  luK (mmul n n n) (madd n n) (msub n n) (mzero n n) (mtriu n n 0) (mtril1 n n) wT A L0 U0 L0inv U0inv.
+Definition cholU (n : nat) (A : seq mx) (L0 L0inv : mx) : seq mx :=
+  cholK (mmul n n n) (madd n n) (msub n n) (mneg n n) (mtr n n) (mzero n n) (mlowhalf n) (mfixdiag n) A L0 L0inv.
+Definition qrU (n : nat) (A : seq mx) (Q0 R0 Rinv : mx) : seq (mx * mx) :=
+  qrK (mmul n n n) (madd n n) (msub n n) (mtr n n) (mzero n n) (mtril1 n n) (mhalf n) A Q0 R0 Rinv.
 
 (* prod of a vector of series by repeated in-place multiplication (UTPM.prod), det and logdet *)
 Definition prodS (D : nat) (xs : seq (seq K)) : seq K := foldl (fun y x => mulS y x) (constS 1 D) xs.
